@@ -11,6 +11,7 @@ Want(e, r) == IF ~r.ok THEN (IF e.raised = "" THEN <<C("must-refuse", "an except
 Judge(e) ==
   CASE e.op = "enc" -> Want(e, Enc(e.mo, e.m))
     [] e.op = "enc_at" -> Want(e, Enc([e.mo EXCEPT !.count0 = IncBE(e.mo.count0, e.c)], e.m))   \* CTR: the segment of one long call that starts at block e.c
+    [] e.op = "dec_at" -> Want(e, Dec([e.mo EXCEPT !.count0 = IncBE(e.mo.count0, e.c)], e.m))
     [] e.op = "dec" -> Want(e, Dec(e.mo, e.m))
     [] e.op = "rt"  -> LET c == Enc(e.mo, e.m) IN IF c.ok /\ Injective(e.mo) THEN Want(e, Done(e.m)) ELSE <<>>
     [] e.op = "cts_enc" -> IF e.raised # "" THEN <<C("must-not-raise", "ciphertext of the message's length")>>
